@@ -180,7 +180,7 @@ class _Parent(service.MultiService):
 
 
 class ClientNode:
-    def __init__(self, grid, idx, params, lease_secret=None, convergence=b"conv-secret", keystart=0, basedir=None, preferred=()):
+    def __init__(self, grid, idx, params, lease_secret=None, convergence=b"conv-secret", keystart=0, basedir=None, preferred=(), gm_keys=None, gm_certs=None):
         from allmydata.storage_client import StorageFarmBroker
         from allmydata.client import SecretHolder, Terminator
         from allmydata.immutable.upload import Uploader
@@ -189,7 +189,13 @@ class ClientNode:
         from allmydata.interfaces import SDMF_VERSION
         self.grid, self.idx, self.params = grid, idx, dict(params)
         cfg = config_from_string(basedir or grid.basedir, "client.port", "")
-        self.broker = StorageFarmBroker(True, None, cfg)
+        # gm_keys: grid-manager public keys this client is configured with; gm_certs: {server idx: [certificate dicts]} as the servers announce them
+        self.gm_certs = gm_certs or {}
+        if gm_keys:
+            from allmydata.storage_client import StorageClientConfig
+            self.broker = StorageFarmBroker(True, None, cfg, StorageClientConfig(grid_manager_keys=list(gm_keys)))
+        else:
+            self.broker = StorageFarmBroker(True, None, cfg)
         self.lease_secret = lease_secret or hashlib.sha256(b"lease-secret-%d" % idx).digest()
         self.secret_holder = SecretHolder(self.lease_secret, convergence)
         self.parent = _Parent(self)
@@ -209,6 +215,8 @@ class ClientNode:
         rref.version = s.fss.remote_get_version()
         ann = {"anonymous-storage-FURL": "pb://%s@nowhere/fake%d" % (str(base32.b2a(s.nodeid), "ascii"), s.idx),
                "permutation-seed-base32": str(base32.b2a(s.nodeid), "ascii"), "nickname": "s%d" % s.idx}
+        if s.idx in self.gm_certs:
+            ann["grid-manager-certificates"] = list(self.gm_certs[s.idx])
         self.broker.test_add_rref(s.server_id, rref, ann)
 
     def upload(self, uploadable):
